@@ -9,7 +9,7 @@ META = {
     'rule': 'seeded random PDAs (1-3 states, <=6 transitions, epsilon moves, replace and no-op transitions, stack-growing and '
             'non-growing epsilon cycles) x all words <=3 x closure limits {0,1,2,5,40}; verdict compared with the exact '
             'summary-saturation oracle (soundness always; equality when no closure is truncated) and with the Lean model; '
-            'non-trivial = PDA with an epsilon move and a stack operation, word non-empty; distinct by (PDA, word, limit)',
+            'non-trivial = PDA with an epsilon move and a stack operation, word non-empty; distinct by (PDA, word, limit); also PDAs with epsilon loops that push (infinite closures) or pop (drain loops), automata produced by pda_to_accept_on_empty_stack, ambiguous multi-character stack symbols, in-place-edit history',
     'assumptions': ['PDA.valid (constructor); delta is a dict (unique keys)'],
     'trusted_base': ['Spec: Gamba/Spec/PDA.lean (Move, Run, Accepts, EpsReach)'],
 }
